@@ -152,3 +152,33 @@ package linker
 //@       (forall i, j int :: 0 <= i && i < len(jsParts(c, sourceIndex)) && 0 <= j && j < len(jsParts(c, sourceIndex)[i].ImportRecordIndices) ==> importTargetLive(c, sourceIndex, jsParts(c, sourceIndex)[i].ImportRecordIndices[j]))
 //@   ensures keeps-effects: !old(c.graph.Files[sourceIndex].IsLive) && isJSFile(c, sourceIndex) ==>
 //@       (forall i int :: 0 <= i && i < len(jsParts(c, sourceIndex)) && !jsParts(c, sourceIndex)[i].CanBeRemovedIfUnused ==> jsParts(c, sourceIndex)[i].IsLive)
+
+// ----------------------------------------------------------------------------------------------
+// C02: `export * from` semantics (ECMA-262 16.2.1.6.3 GetExportedNames / ResolveExport): a star re-export
+// never provides the name "default" and never overrides a name that a file on the re-export path exports
+// itself. addExportsForExportStar walks the export-star graph with an explicit stack; whatever alias it ADDS
+// to resolvedExports must not be a real named export of the current file or of any file on the stack, and it
+// never removes an entry.
+//@ spec func hasNamedExport(c *linkerContext, s uint32, a string) bool = inDom(c.graph.Files[s].InputFile.Repr.(*graph.JSRepr).AST.NamedExports, a)
+//@ spec func notShadowed(c *linkerContext, stack []uint32, a string) bool =
+//@     forall k int :: 0 <= k && k < len(stack) ==> !hasNamedExport(c, stack[k], a)
+
+//@ func (*linkerContext).addExportsForExportStar
+//@   arith int
+//@   prop C02
+//@   opt transparent notShadowed
+//@   requires c != nil
+//@   ensures only-grows: forall a string :: old(inDom(resolvedExports, a)) ==> inDom(resolvedExports, a)
+//@   ensures never-default: !old(inDom(resolvedExports, "default")) ==> !inDom(resolvedExports, "default")
+//@   ensures added-names-are-unshadowed: forall a string :: !old(inDom(resolvedExports, a)) && inDom(resolvedExports, a) ==>
+//@       notShadowed(c, old(sourceIndexStack), a) && !hasNamedExport(c, sourceIndex, a)
+//@   loop 1 invariant forall a string :: old(inDom(resolvedExports, a)) ==> inDom(resolvedExports, a)
+//@   loop 1 invariant !old(inDom(resolvedExports, "default")) ==> !inDom(resolvedExports, "default")
+//@   loop 1 invariant forall a string :: !old(inDom(resolvedExports, a)) && inDom(resolvedExports, a) ==> notShadowed(c, sourceIndexStack, a)
+//@   loop 2 invariant forall a string :: old(inDom(resolvedExports, a)) ==> inDom(resolvedExports, a)
+//@   loop 2 invariant !old(inDom(resolvedExports, "default")) ==> !inDom(resolvedExports, "default")
+//@   loop 2 invariant forall a string :: !old(inDom(resolvedExports, a)) && inDom(resolvedExports, a) ==> notShadowed(c, sourceIndexStack, a)
+//@   loop 3 invariant forall a string :: old(inDom(resolvedExports, a)) ==> inDom(resolvedExports, a)
+//@   loop 3 invariant !old(inDom(resolvedExports, "default")) ==> !inDom(resolvedExports, "default")
+//@   loop 3 invariant forall a string :: !old(inDom(resolvedExports, a)) && inDom(resolvedExports, a) ==> notShadowed(c, sourceIndexStack, a)
+//@   loop 3 invariant alias != "default" && (forall k int :: 0 <= k && k <= rangeindex ==> !hasNamedExport(c, sourceIndexStack[k], alias))
